@@ -273,6 +273,23 @@ func genTemplate(r *core.Rng) *template {
 	if t.NAccess == 0 {
 		t.Steps = append(t.Steps, g.access())
 	}
+	// constant bases: 60% such that every access through them is in bounds
+	// (and aligned when atomics use them), else from the boundary sets
+	ceil, atomic := t.ceilings(0)
+	for i := range t.Vars {
+		v := &t.Vars[i]
+		if v.Kind != "const" && v.Kind != "lconst" {
+			continue
+		}
+		if r.Chance(3, 5) {
+			v.K = uint32(pickInb(r, size, ceil[i]))
+			if atomic[i] && r.Chance(4, 5) {
+				v.K &^= 7
+			}
+		} else {
+			v.K = uint32(pickAddr(r, size, uint64(1<<r.Intn(4))))
+		}
+	}
 	return t
 }
 
@@ -361,12 +378,19 @@ func (g *tgen) access() step {
 				s.SrcK = uint32(pickAddr(r, g.size, uint64(s.N)))
 			}
 		case clInit:
-			s.SrcK = uint32(r.Intn(len(t.Data) + 2))
-			if r.Chance(1, 10) {
-				s.SrcK = r.I32()
+			s.SrcK = uint32(r.Intn(len(t.Data) + 1))
+			if s.NKind == "const" {
+				s.N = uint32(r.Intn(len(t.Data) - int(s.SrcK) + 1))
 			}
-			if s.NKind == "const" && r.Chance(2, 3) {
-				s.N = uint32(r.Intn(len(t.Data) + 2))
+			switch r.Intn(10) {
+			case 0:
+				s.SrcK = r.I32()
+			case 1:
+				s.SrcK = uint32(len(t.Data) + r.Intn(2))
+			case 2:
+				s.N = uint32(len(t.Data)) - s.SrcK + uint32(r.Intn(2))
+			case 3:
+				s.N = r.I32()
 			}
 		}
 	default:
@@ -450,7 +474,10 @@ func (g *tgen) between() []step {
 			if bv.Kind == "const" || bv.Inline {
 				continue
 			}
-			d := []uint32{1, 2, 4, 8, 16, 0xffffffff, 0xfffffffc, 0xfffffff8, pageSize, 0x80000000}
+			d := []uint32{1, 2, 4, 8, 8, 16, 0xffffffff, 0xfffffffc, 0xfffffff8, 0xfffffff8}
+			if r.Chance(1, 6) {
+				d = []uint32{pageSize, 0x80000000, 0xffff0000, r.U32()}
+			}
 			out = append(out, step{Kind: "bump", Var: v, Delta: d[r.Intn(len(d))]})
 		}
 	}
@@ -490,6 +517,7 @@ func (g *tgen) seq(depth int) []step {
 					s.Else = g.arm(depth + 1)
 				}
 				out = append(out, s)
+				out = append(out, g.afterJoin([][]step{s.Body, s.Else})...)
 			case 1:
 				s := step{Kind: "brif", Bit: g.bit()}
 				s.Body = g.arm(depth + 1)
@@ -509,6 +537,7 @@ func (g *tgen) seq(depth int) []step {
 					s.Arms = append(s.Arms, g.arm(depth+1))
 				}
 				out = append(out, s)
+				out = append(out, g.afterJoin(s.Arms)...)
 			}
 			if depth > 0 && r.Bool() {
 				break
@@ -522,6 +551,53 @@ func (g *tgen) seq(depth int) []step {
 		}
 	}
 	return out
+}
+
+// afterJoin implements the "diverging arms" pattern: the first plain access
+// of each arm is made to go through a different base var, and right after the
+// join one of those vars is used again with the same offset and a width that
+// is not larger. Only the arm that was executed has checked its base value;
+// a bound "known" from the other arm must not survive the join.
+func (g *tgen) afterJoin(arms [][]step) []step {
+	r := g.r
+	if len(g.t.Vars) < 2 || g.budget <= 0 || !r.Chance(1, 2) {
+		return nil
+	}
+	var firsts []*step
+	for _, a := range arms {
+		for i := range a {
+			if a[i].Kind == "access" && opByName[a[i].Op].Width != 0 {
+				firsts = append(firsts, &a[i])
+				break
+			}
+		}
+	}
+	if len(firsts) < 2 {
+		return nil
+	}
+	v0 := r.Intn(len(g.t.Vars))
+	for i, f := range firsts {
+		f.Var = (v0 + i) % len(g.t.Vars)
+	}
+	pick := firsts[r.Intn(len(firsts))]
+	g.budget--
+	s := g.access()
+	o := opByName[s.Op]
+	if o.Width == 0 || o.Width > opByName[pick.Op].Width || o.Atomic {
+		// replace by a narrow plain load
+		g.t.ResTypes = g.t.ResTypes[:len(g.t.ResTypes)-btoi(s.Res >= 0)]
+		s.Op, s.Align, s.Res, s.SrcVar = "i32.load8_u", 0, len(g.t.ResTypes), -1
+		g.t.ResTypes = append(g.t.ResTypes, wenc.I32)
+	}
+	s.Var, s.Off = pick.Var, pick.Off
+	return []step{s}
+}
+
+func btoi(b bool) int {
+	if b {
+		return 1
+	}
+	return 0
 }
 
 // arm: a short sub-sequence (possibly empty, possibly only a call/grow).
@@ -543,6 +619,34 @@ func (g *tgen) arm(depth int) []step {
 		out = append(out, g.between()...)
 	}
 	return out
+}
+
+// ceilings returns per var the largest offset+width of the accesses through
+// it (p1 = current value of parameter 1 for bulk lengths taken from it) and
+// whether an atomic access uses it.
+func (t *template) ceilings(p1 uint32) (ceil []uint64, atomic []bool) {
+	ceil = make([]uint64, len(t.Vars))
+	atomic = make([]bool, len(t.Vars))
+	for _, a := range t.flat() {
+		o := opByName[a.Op]
+		w, off := uint64(o.Width), uint64(a.Off)
+		if o.Width == 0 {
+			w, off = uint64(a.N), 0
+			if a.NKind == "p1" {
+				w = uint64(p1)
+			}
+			if o.Class == clCopy && a.SrcVar >= 0 && w > ceil[a.SrcVar] {
+				ceil[a.SrcVar] = w
+			}
+		}
+		if off+w > ceil[a.Var] {
+			ceil[a.Var] = off + w
+		}
+		if o.Atomic {
+			atomic[a.Var] = true
+		}
+	}
+	return
 }
 
 // shape is the canonical structure of a template without the numbers: the
@@ -838,7 +942,7 @@ func (t *template) emitAccess(c *wenc.Code, s *step, resBase uint32) {
 	if t.limit > 0 && s.ID > t.limit {
 		return
 	}
-	c.I32Const(int32(s.ID)).GlobalSet(0)
+	c.GlobalGet(0).I32Const(1).Op(0x6a).GlobalSet(0) // progress = number of accesses started
 	t.emitVar(c, s.Var)
 	memarg := func() {
 		if o.Prefix == 0 {
